@@ -36,6 +36,7 @@ enum RimeVerifYieldPoint {
   RIME_VERIF_NOTIFY_LOCKED = 10,
   RIME_VERIF_GETSESSION_ACCEPTED = 11,
   RIME_VERIF_CREATESESSION_ACCEPTED = 12,
+  RIME_VERIF_FINISHWORK_ENTER = 13,
 };
 enum RimeVerifTaskEvent {
   RIME_VERIF_TASK_SCHEDULED = 0,
